@@ -646,7 +646,9 @@ def run_wrap(task):
                          (b"{\xcc\x81", b"}\xcc\x81"), (b"\xe2\x80\x8f\xd7\xa9", b"\xe2\x80\x8f\xd7\x9c"),
                          # zero-width-joiner sequences (man / woman technologist), check mark / cross with selector
                          (b"\xf0\x9f\x91\xa8\xe2\x80\x8d\xf0\x9f\x92\xbb", b"\xf0\x9f\x91\xa9\xe2\x80\x8d\xf0\x9f\x92\xbb"),
-                         (b"\xe2\x9c\x94\xef\xb8\x8f", b"\xe2\x9c\x96\xef\xb8\x8f")):
+                         (b"\xe2\x9c\x94\xef\xb8\x8f", b"\xe2\x9c\x96\xef\xb8\x8f"),
+                         # soft hyphen
+                         (b"co\xc2\xadop", b"re\xc2\xadop")):
                 for k in range(0, w // 2 + 2):
                     pad = b"w" * k
                     inputs.append(head + b"-" + pad + a + b" tail of the line\n+" + pad + b + b" tail of the line\n")
@@ -665,7 +667,7 @@ def run_wrap(task):
                     if isinstance(r, Exception) or r.panic:
                         msg = str(r) if isinstance(r, Exception) else r.panic
                         klass = "crash:%s:%s" % ("hang" if isinstance(r, Hang) else "panic", explore.crash_site(msg))
-                        if any(z in inp for z in (b"\xef\xb8\x8f", b"\xe2\x80\x8b", b"\xe2\x80\x8f", b"\xcc\x81", b"\xe2\x80\x8d")):
+                        if any(z in inp for z in (b"\xef\xb8\x8f", b"\xe2\x80\x8b", b"\xe2\x80\x8f", b"\xcc\x81", b"\xe2\x80\x8d", b"\xc2\xad")):
                             klass += ":cluster-or-zero-width"     # (a class of its own: see known_findings.json)
                         if klass not in viols:
                             v = Violation(klass, msg, inp.split(b"\n")[:-1], None, None, msg)
